@@ -257,12 +257,58 @@ func (t *Input) Validate(root *Root) (errs []error) {
 				errs = append(errs, fmt.Errorf("%w, %s does not return an input type at %d:%d",
 					ErrValidation, f.Name(), f.line, f.col))
 			}
+			if f.Default != nil && defaultLoop(f.Type, f.Default, map[*InputField]bool{f: true}) {
+				errs = append(errs, fmt.Errorf("%w, the default value of %s.%s includes itself at %d:%d",
+					ErrValidation, t.Name(), f.Name(), f.line, f.col))
+			}
 		}
 	} else {
 		errs = append(errs, fmt.Errorf("%w, input object %s must have at least one field at %d:%d",
 			ErrValidation, t.Name(), t.line, t.col))
 	}
 	return
+}
+
+// defaultLoop reports whether filling in the field defaults of the input
+// objects in v, a value for type t, comes back to one of the defaults in
+// path, the defaults being filled in. Coercing such a value would never end.
+func defaultLoop(t Type, v interface{}, path map[*InputField]bool) bool {
+	switch tt := t.(type) {
+	case *NonNull:
+		return defaultLoop(tt.Base, v, path)
+	case *List:
+		if list, ok := v.([]interface{}); ok {
+			for _, lv := range list {
+				if defaultLoop(tt.Base, lv, path) {
+					return true
+				}
+			}
+			return false
+		}
+		return defaultLoop(tt.Base, v, path) // a single value is a list of one
+	case *Input:
+		m, _ := v.(map[string]interface{})
+		if m == nil {
+			return false
+		}
+		for _, f := range tt.fields.list {
+			if fv := m[f.N]; fv != nil {
+				if defaultLoop(f.Type, fv, path) {
+					return true
+				}
+			} else if f.Default != nil {
+				if path[f] {
+					return true
+				}
+				path[f] = true
+				if defaultLoop(f.Type, f.Default, path) {
+					return true
+				}
+				delete(path, f)
+			}
+		}
+	}
+	return false
 }
 
 // Resolve returns one of the following:
